@@ -604,9 +604,13 @@ func (g *Gen) loopHead(b *ssa.BasicBlock, li *loopInfo, st *State, rname string,
 	}
 	vars2 := g.loopEnv(li, hs, phiVals)
 	env2 := g.envFor(vars2, hs, g.old)
+	if len(g.inlining) == 0 {
+		g.lineTag = fmt.Sprintf("@loop:%d", li.ord)
+	}
 	for i, c := range invs {
 		g.guardAssume(rname, g.mustClause(env2, c.E, fmt.Sprintf("loop %d invariant#%d", li.ord, i)))
 	}
+	g.lineTag = ""
 	for _, d := range g.con.LoopDecr[li.ord] {
 		li.decrAt = append(li.decrAt, env2.trInt(d))
 	}
